@@ -5,6 +5,7 @@ CONSTANTS
   KF_WildNew = TRUE
   FlowDomain = {}
   TxnDomain = {}
+  SymLits <- SymNone
   MaxFlows = 0
 SPECIFICATION TraceSpec
 CONSTRAINT HWM
